@@ -105,7 +105,10 @@ def gen_scenario(rng, fam, force_rebuffer=None):
                 a.append({"op": rng.choice(("refresh", "gbc", "guc_unknown")), "tag": t()})
         if rng.random() < 0.5:
             rng.shuffle(actors)
-    return {"fam": fam, "actors": actors, "prefire_ls": fam == "ls" and rng.random() < 0.7, "seedpos": rng.randrange(1000)}
+    sc = {"fam": fam, "actors": actors, "prefire_ls": fam == "ls" and rng.random() < 0.7, "seedpos": rng.randrange(1000)}
+    if fam == "ls" and rng.random() < 0.35:
+        sc["refuse_ls_frame"] = rng.choice((1, 2, 2, 3))
+    return sc
 
 
 class LogDict(dict):
@@ -146,6 +149,14 @@ class CaptureLL:
         s = S._current
         import threading
         a = s.by_ident.get(threading.get_ident()) if s else None
+        k = self.ctx.spec.get("refuse_ls_frame")
+        if k and len(packet) > 5 and (packet[5] >> 4) == W.HT_LS and (packet[5] & 15) == 0:
+            self.ctx.ls_frames = getattr(self.ctx, "ls_frames", 0) + 1
+            if self.ctx.ls_frames == k:
+                # fault injection: the interface refuses this one LS Request (first transmission or a retransmission)
+                self.ctx.refused = getattr(self.ctx, "refused", 0) + 1
+                from flexstack.linklayer.exceptions import SendingException
+                raise SendingException("interface busy (injected)")
         self.ctx.sent.append((s.step_no if s else -1, a.name if a else "main", bytes(packet)))
         if a is not None:
             s.sync_point(a, "transmit")
@@ -425,6 +436,8 @@ def judge(ctx, res):
         fires = [t for t in s.trace if t[0] == "timer-fire"]
         if sum(rem_dup.values()) and fires:
             res.count("cbf.cancel_vs_expiry_races")
+    if getattr(ctx, "refused", 0):
+        res.count("ls.executions_with_a_refused_ls_request_frame")
     # LS conservation
     unknown_tags = [o["tag"] for ops in spec["actors"] for o in ops if o["op"] == "guc_unknown"]
     if unknown_tags:
